@@ -1,11 +1,13 @@
 // Command c19 executes source-extractor scenarios against the real utils.NewExtractor / Extract.
 //
 //	cfg var=<esc variable>                                  -> ok | err unsupported | err wrongheader | err other
-//	x addr=<esc> host=<esc> [h=<esc name>=<esc value>]...   -> ok tok=<esc token> amt=<n> | err
+//	x addr=<esc> host=<esc> [urlhost=<esc>] [h=<esc name>=<esc value>]...   -> ok tok=<esc token> amt=<n> | err
 //
 // <esc>: bytes in [A-Za-z0-9.:_-] and '[' ']' stand for themselves, every other byte is %XX (upper-case
 // hex); identical on the Lean side.  The request is forged in-process: RemoteAddr, Host as given, the
 // header lines added with Header.Add in the order given (as a server does while reading them).
+// urlhost sets req.URL.Host (and an absolute-form RequestURI): what a request looks like behind a
+// load balancer that re-pointed req.URL at a backend, or after an absolute-form request line.
 package main
 
 import (
@@ -90,6 +92,13 @@ func (s *h) Op(f []string) string {
 				return "bad-op"
 			}
 			req.Host, seenH = v, true
+		case strings.HasPrefix(t, "urlhost=") && req.URL.Host == "":
+			v, ok := unesc(t[8:])
+			if !ok {
+				return "bad-op"
+			}
+			req.URL.Scheme, req.URL.Host = "http", v
+			req.RequestURI = "http://" + v + "/"
 		case strings.HasPrefix(t, "h="):
 			name, value, found := strings.Cut(t[2:], "=")
 			n, ok1 := unesc(name)
